@@ -352,6 +352,20 @@ use vstd::std_specs::hash::*;"""
                 && (final(t).sent.last() matches AgentStatusAction::%(v)s { summary: s, response: _ } && s == summary),  // @C11.wrapper.%(m)s.hands_exactly_this_summary_to_the_actor_once
             final(t).sent == old(t).sent || (final(t).sent.len() == old(t).sent.len() + 1 && final(t).sent.drop_last() == old(t).sent),  // @C11.wrapper.%(m)s.at_most_one_message
 """ % dict(m=meth, v=variant))
+        # ---- the two connection counters the listener asks for per connection / per request: one message, the actor's reply, and Err only
+        # when the actor is gone (C07: the exit of handle_new_tcp_connection on a failed increase_tcp_connection_count is then permanent;
+        # C13: a live actor always answers the listener)
+        with u.impl_(asw, "AgentStatusSharedState"):
+            for (meth, variant) in (("increase_tcp_connection_count", "IncreaseTcpConnectionCount"), ("increase_connection_count", "IncreaseConnectionCount")):
+                u.take_fn(asw, "AgentStatusSharedState::" + meth, ghost="Tracked(t): Tracked<&mut ChanTrace<AgentStatusAction>>",
+                          pre_body="broadcast use group_fmt_chan_errors;", e9=chan_e9(asw, "AgentStatusSharedState::" + meth, "crate::shared_state::agent_status_wrapper::AgentStatusAction", "status"),
+                          contract="""
+        ensures
+            r is Err ==> final(t).gone,  // @C07+C13.wrapper.%(m)s.fails_only_if_actor_gone
+            r matches Ok(v) ==> final(t).sent.len() == old(t).sent.len() + 1 && final(t).sent.drop_last() == old(t).sent
+                && (final(t).sent.last() matches AgentStatusAction::%(v)s { response } && v == sent_value(response)),  // @C07+C13.wrapper.%(m)s.returns_the_actors_reply_to_its_one_message
+            final(t).sent == old(t).sent || (final(t).sent.len() == old(t).sent.len() + 1 && final(t).sent.drop_last() == old(t).sent),  // @C07+C13.wrapper.%(m)s.at_most_one_message
+""" % dict(m=meth, v=variant))
         FN = "AgentStatusSharedState::start_new"
         it = asw.item(FN, "fn")
         ms = [m for m in it["matches"] if asw.s(m["scrutinee"][0], m["scrutinee"][1]).strip() == "action"]
